@@ -161,8 +161,49 @@ def gen_case(rng, devs):
     return "\n".join(lines) + "\n", (("OK", bytes(code).hex(), bytes(eep).hex(), fill) if ok else ("ERR",)), dev
 
 
+def big_counts(res, vh):
+    """more than 2^16 of everything that is counted (lines, instructions, labels, operands, characters, segments, symbols): the
+    layout rule has no size limit below the device's.  Judged on the implementation only (the model's list appends are quadratic)."""
+    from . import common as C
+    le = lambda v, n: (v % 256 ** n).to_bytes(n, "little").hex()
+    cases = [
+        ("instructions", " nop\n" * 70000 + "L: .dd L\n", "0000" * 70000 + le(70000, 4)),
+        ("labels", "".join("l%d: .dd l%d\n" % (i, i) for i in range(66000)), "".join(le(2 * i, 4) for i in range(66000))),
+        ("label-after-65536-words", ".org 65535\n nop\nL: nop\n rjmp L\n .dd L\n", None),
+        ("segments", "".join(".org %d\n .dw %d\n" % (2 * k, k % 65536) for k in range(1, 67000)), None),
+        ("operands", " .db " + ", ".join(str(i % 256) for i in range(70001)) + "\nE: .dd E\n",
+         "".join("%02x" % (i % 256) for i in range(70001)) + "00" + le(35001, 4)),
+        ("string", " .db \"" + "x" * 70001 + "\"\nE: .dd E\n", "78" * 70001 + "00" + le(35001, 4)),
+        ("symbols", "".join(".equ e%d = %d\n" % (i, i) for i in range(66000)) + " .dd e65999, e65536, e255\n", le(65999, 4) + le(65536, 4) + le(255, 4)),
+        ("eeprom-bytes", ".eseg\n" + " .db 1, 2\n" * 32767 + "E: .db 9\n.cseg\n .dd E\n", None),
+        ("dseg-reserve", ".dseg\n" + " .byte 1\n" * 66000 + "V: .byte 1\n.cseg\n .dd V\n", le(0x60 + 66000, 4)),
+    ]
+    out = C.vh(vh, ["build"], input="".join(t.encode("utf-8").hex() + "\n" for _, t, _ in cases)).split("\n")
+    for (kind, text, want), o in zip(cases, out):
+        a = progrun.parse_obs(o)
+        res.count(("big", kind), nontrivial=True)
+        if kind == "segments":
+            want = "".join("0000" + le(k % 65536, 2) for k in range(1, 67000))[4:]
+            want = "0000" + want        # word 0 and 1 are padding, then every second word holds k
+            want = None if a.get("kind") == "OK" and all(a["code"][8 * k:8 * k + 4] == le(k % 65536, 2) for k in (1, 2, 255, 256, 32768, 65535, 65536, 66999)) and len(a["code"]) == 4 * (2 * 66999 + 1) else "x"
+            if want:
+                P.fail(res, "builder::build_str", ".org 2 / .dw 1 / .org 4 / .dw 2 ... (66999 segments)", "word 2k = k for every k, %d bytes" % (2 * (2 * 66999 + 1)), o[:60] + " ... length %d" % len(a.get("code", "")), "big:" + kind)
+            continue
+        if kind == "label-after-65536-words":
+            ok = a.get("kind") == "OK" and a["code"].endswith("0000" + "0000" + "fecf" + le(65536, 4))
+        elif kind == "eeprom-bytes":
+            ok = a.get("kind") == "OK" and a["code"] == le(65534, 4) and a["eeprom"] == "0102" * 32767 + "09"
+        else:
+            ok = a.get("kind") == "OK" and a["code"] == want
+        if not ok:
+            P.fail(res, "builder::build_str", "%s ... (%d bytes)" % (text[:60], len(text)), "the layout rule: " + (want[-24:] if want else kind) + " at the end",
+                   o[:40] + " ... " + a.get("code", "")[-24:], "big:" + kind)
+    res.extra.setdefault("distribution", {})["counts_above_65536"] = len(cases)
+
+
 def run(res):
     vh, exe = P.base(res, PROP)
+    big_counts(res, vh)
     devs = [d for d in gen.read_devices(vh)[1:] if d[1] >= 512]
     rng = random.Random(res.seed)
     cases = [gen_case(rng, devs) for _ in range(4000 if res.tier == "quick" else 1500000)]
@@ -210,4 +251,4 @@ match_known = P.match_known
 
 
 def replay(path):
-    return P.replay_text(PROP, path, lambda vh, exe, i: None)
+    return P.replay_by_rerun(PROP, path)
